@@ -84,3 +84,223 @@ Proof.
   pose proof (despawn_chan_poll_despawns (despawn_chan (w <| removal_checkers := chk |>)) ((w <| removal_checkers := chk |>) <| despawn_chan := [] |>)) as H.
   destruct (poll_despawns _ _) as [w1 c2]. exact H.
 Qed.
+
+(* ================================================================================================================ *)
+(* RSeq (sequence numbers of recorded removals stay below the counter) is an invariant of every interpreter step     *)
+Definition rmview (w : world) := (removed w, removed_seq w).
+Lemma RSeq_rmview w w' : rmview w' = rmview w -> RSeq w -> RSeq w'.
+Proof. unfold rmview, RSeq. intros H. inversion H as [[H1 H2]]. rewrite H1, H2. auto. Qed.
+Lemma rmview_handle_drop h w : rmview (handle_drop h w) = rmview w.
+Proof.
+  destruct h as [s|g s]; cbn; [reflexivity|]. unfold sig_drop.
+  destruct (alookup g (sigs w)) as [[e n]|]; [|reflexivity]. destruct (N.leb n 1); reflexivity.
+Qed.
+Lemma rmview_handle_clone h w : rmview (handle_clone h w) = rmview w.
+Proof. destruct h as [s|g s]; cbn; [reflexivity|]. unfold sig_clone. destruct (alookup g (sigs w)) as [[e n]|]; reflexivity. Qed.
+Lemma rmview_handles_drop hs : forall w, rmview (handles_drop hs w) = rmview w.
+Proof. induction hs as [|h hs IH]; intros w; cbn; [reflexivity|]. rewrite IH. apply rmview_handle_drop. Qed.
+Lemma rmview_drop_callback t w : rmview (drop_callback t w) = rmview w.
+Proof. unfold drop_callback. destruct (alookup t (cbs w)) as [cb|]; [destruct (cb_live cb)|]; reflexivity. Qed.
+Lemma rmview_drop_ddata d w : rmview (drop_ddata d w) = rmview w.
+Proof. destruct d as [? ? ?|? ? ? ?|? [?|]]; reflexivity. Qed.
+Lemma rmview_take_sysevents tys : forall w, rmview (snd (take_sysevents tys w)) = rmview w.
+Proof.
+  induction tys as [|ty r IH]; intros w; cbn [take_sysevents]; [reflexivity|].
+  destruct (peek_sysevent ty w) as [p|]; [|apply IH].
+  match goal with |- context [take_sysevents r ?w1] => specialize (IH w1); destruct (take_sysevents r w1) end. exact IH.
+Qed.
+Lemma rmview_sample_readers sd x w : rmview (snd (sample_readers sd x w)) = rmview w.
+Proof.
+  unfold sample_readers. pose proof (rmview_take_sysevents TYPES w) as H1.
+  destruct (sd_take sd); [destruct (take_sysevents TYPES w) as [s w1]; exact H1|reflexivity].
+Qed.
+Lemma rmview_revoke_one s t w : rmview (revoke_one s t w) = rmview w.
+Proof.
+  assert (Hent : forall e rt, rmview (if is_alive e w then
+             match alookup e (ereactors w) with
+             | Some l => let (d, k) := er_remove rt s l in handles_drop d (w <| ereactors := aset e k (ereactors w) |>)
+             | None => w end else w) = rmview w).
+  { intros e rt. destruct (is_alive e w); [|reflexivity]. destruct (alookup e (ereactors w)) as [l|]; [|reflexivity].
+    destruct (er_remove rt s l) as [d k]. rewrite rmview_handles_drop. reflexivity. }
+  assert (Hcomp : forall kd c, rmview (comp_revoke kd c s w) = rmview w).
+  { intros kd c. unfold comp_revoke. destruct (alookup c (comp_tbl w)) as [[[i m] r]|]; [|reflexivity].
+    destruct (remove_first s match kd with KIns => i | KMut => m | KRem => r end) as [o l'].
+    destruct (match kd with KIns => (l', m, r) | KMut => (i, l', r) | KRem => (i, m, l') end) as [[i' m'] r'].
+    destruct o as [h|]; [rewrite rmview_handle_drop|]; (destruct i'; [destruct m'; [destruct r'|]|]); reflexivity. }
+  destruct t; cbn [revoke_one]; try apply Hent; try apply Hcomp.
+  - destruct (tbl_revoke ty s (bc_tbl w)) as [o t']. destruct o; [rewrite rmview_handle_drop|]; reflexivity.
+  - destruct (tbl_revoke ty s (any_tbl w)) as [o t']. destruct o; [rewrite rmview_handle_drop|]; reflexivity.
+  - destruct (tbl_revoke r s (res_tbl w)) as [o t']. destruct o; [rewrite rmview_handle_drop|]; reflexivity.
+  - destruct (tbl_revoke e s (desp_tbl w)) as [o t']. destruct o; [rewrite rmview_handle_drop|]; reflexivity.
+Qed.
+Lemma rmview_revoke_all s ts : forall w, rmview (revoke_all s ts w) = rmview w.
+Proof. induction ts as [|t ts IH]; intros w; cbn; [reflexivity|]. rewrite IH. apply rmview_revoke_one. Qed.
+Lemma rmview_reg_triggers_cmds h ts : forall w, rmview (fst (reg_triggers_cmds h ts w)) = rmview w.
+Proof.
+  induction ts as [|t ts IH]; intros w; cbn [reg_triggers_cmds]; [reflexivity|].
+  destruct (reg_trigger_cmds h t w) as [w1 c1] eqn:E1. destruct (reg_triggers_cmds h ts w1) as [w2 c2] eqn:E2. cbn [fst].
+  assert (H1 : rmview w1 = rmview w).
+  { destruct t; cbn in E1; try (inversion E1; subst; apply rmview_handle_clone).
+    destruct (is_alive e w); inversion E1; subst; [apply rmview_handle_clone|reflexivity]. }
+  specialize (IH w1). rewrite E2 in IH. cbn [fst] in IH. congruence.
+Qed.
+Lemma rmview_poll_despawns chan : forall w, rmview (fst (poll_despawns chan w)) = rmview w.
+Proof.
+  induction chan as [|e r IH]; intros w; cbn [poll_despawns]; [reflexivity|].
+  specialize (IH (w <| desp_tbl := aremove e (desp_tbl w) |>)). destruct (poll_despawns r _) as [w2 cs]. exact IH.
+Qed.
+Lemma rmview_poll w : rmview (fst (poll w)) = rmview w.
+Proof.
+  unfold poll. destruct (poll_removals (removal_checkers w) w) as [chk c1].
+  pose proof (rmview_poll_despawns (despawn_chan (w <| removal_checkers := chk |>)) ((w <| removal_checkers := chk |>) <| despawn_chan := [] |>)) as H.
+  destruct (poll_despawns _ _) as [w2 c2]. exact H.
+Qed.
+Lemma rmview_comp_push kd c h w : rmview (comp_push kd c h w) = rmview w.
+Proof. unfold comp_push. destruct (alookup c (comp_tbl w)) as [[[i m] r]|]; destruct kd; reflexivity. Qed.
+Lemma rmview_dsp_storage e w : rmview (dsp_storage e w) = rmview w.
+Proof.
+  unfold dsp_storage. destruct (alookup e (storage w)) as [[|]|]; try reflexivity.
+  etransitivity; [|apply (rmview_drop_callback e w)]. reflexivity.
+Qed.
+Lemma rmview_dsp_ereactors e w : rmview (dsp_ereactors e w) = rmview w.
+Proof.
+  unfold dsp_ereactors. destruct (alookup e (ereactors w)) as [l|]; [|reflexivity].
+  etransitivity; [|apply (rmview_handles_drop (map snd l) w)]. reflexivity.
+Qed.
+Lemma rmview_dsp_tracker e w : rmview (dsp_tracker e w) = rmview w.
+Proof. unfold dsp_tracker. destruct (memN e (dtrackers w)); reflexivity. Qed.
+Lemma rmview_dsp_data e w : rmview (dsp_data e w) = rmview w.
+Proof.
+  unfold dsp_data. destruct (alookup e (dataents w)) as [d|]; [|reflexivity].
+  etransitivity; [|apply (rmview_drop_ddata d w)]. reflexivity.
+Qed.
+Lemma rmview_dsp_alive e w : rmview (dsp_alive e w) = rmview w. Proof. reflexivity. Qed.
+Lemma rmview_dsp_xlocals e w : rmview (dsp_xlocals e w) = rmview w. Proof. reflexivity. Qed.
+Lemma rmview_reserve id w : rmview (reserve id w) = rmview w.
+Proof. unfold reserve, bind_id. destruct (memN id (bound w)); reflexivity. Qed.
+Lemma RSeq_dsp_comps e w : RSeq w -> RSeq (dsp_comps e w).
+Proof. intros H. unfold dsp_comps. eapply RSeq_rmview; [|apply RSeq_push_all; exact H]. reflexivity. Qed.
+Lemma RSeq_despawn e w : RSeq w -> RSeq (despawn e w).
+Proof.
+  intros H. unfold despawn. destruct (negb (is_alive e w)); [exact H|].
+  eapply RSeq_rmview; [apply rmview_dsp_xlocals|]. eapply RSeq_rmview; [apply rmview_dsp_data|]. eapply RSeq_rmview; [apply rmview_dsp_tracker|].
+  eapply RSeq_rmview; [apply rmview_dsp_ereactors|]. eapply RSeq_rmview; [apply rmview_dsp_storage|]. apply RSeq_dsp_comps.
+  eapply RSeq_rmview; [apply rmview_dsp_alive|exact H].
+Qed.
+Lemma RSeq_try_cleanup d w : RSeq w -> RSeq (try_cleanup_data_entity d w).
+Proof.
+  intros H. unfold try_cleanup_data_entity. destruct (negb (is_alive d w)); [exact H|].
+  destruct (alookup d (dataents w)) as [[ty p cnt|ty t p cnt|ty p]|]; try exact H.
+  - match goal with |- RSeq (if ?b then despawn d ?w1 else ?w1) => destruct b; [apply RSeq_despawn|]; (eapply RSeq_rmview; [|exact H]; reflexivity) end.
+  - match goal with |- RSeq (if ?b then despawn d ?w1 else ?w1) => destruct b; [apply RSeq_despawn|]; (eapply RSeq_rmview; [|exact H]; reflexivity) end.
+Qed.
+Lemma RSeq_run_cleanup cl w : RSeq w -> RSeq (run_cleanup cl w).
+Proof.
+  intros H. destruct cl; cbn [run_cleanup].
+  - exact H.
+  - apply RSeq_despawn. eapply RSeq_rmview; [|exact H]. reflexivity.
+  - eapply RSeq_rmview; [|exact H]. reflexivity.
+  - destruct (snd (cur (tr_de w))) as [h|].
+    + eapply RSeq_rmview; [apply rmview_handle_drop|]. eapply RSeq_rmview; [|exact H]. reflexivity.
+    + eapply RSeq_rmview; [|exact H]. reflexivity.
+  - apply RSeq_try_cleanup. eapply RSeq_rmview; [|exact H]. reflexivity.
+  - apply RSeq_try_cleanup. eapply RSeq_rmview; [|exact H]. reflexivity.
+Qed.
+
+Section RSteps.
+Variable P : program.
+Lemma rmview_act o a w : rmview (fst (act P o a w)) = rmview w.
+Proof.
+  destruct a; cbn [act];
+  repeat match goal with
+         | |- context [if ?b then _ else _] => destruct b
+         | |- context [match alookup2 ?a ?b ?c with _ => _ end] => destruct (alookup2 a b c)
+         | |- context [match alookup ?a ?c with _ => _ end] => destruct (alookup a c) as [[? ?]|]
+         | |- context [match ?m with Persistent => _ | _ => _ end] => destruct m
+         end; cbn [fst]; try reflexivity; try apply rmview_reserve.
+  all: try (destruct (alookup wr (p_wr P)); reflexivity).
+  all: try (change (rmview (reserve s w) = rmview w); apply rmview_reserve).
+Qed.
+Lemma RSeq_prim c w : RSeq w -> RSeq (fst (apply_prim P c w)).
+Proof.
+  intros H. destruct c; cbn [apply_prim]; try exact H; try (eapply RSeq_rmview; [|exact H]; reflexivity).
+  - destruct (is_alive d w); (eapply RSeq_rmview; [|exact H]; reflexivity).
+  - destruct (tbl_get ty (bc_tbl w)); cbn [fst]; (eapply RSeq_rmview; [|exact H]; reflexivity).
+  - destruct (entity_targets e (REvent ty) w ++ map handle_sys (tbl_get ty (any_tbl w))); cbn [fst]; (eapply RSeq_rmview; [|exact H]; reflexivity).
+  - match goal with |- context [if ?b then _ else _] => destruct b end; cbn [fst]; first [exact H | eapply RSeq_rmview; [|exact H]; reflexivity].
+  - destruct (is_alive e w); (eapply RSeq_rmview; [|exact H]; reflexivity).
+  - cbn [fst]. destruct (is_alive e w); [|exact H]. destruct (alookup2 c e (comps w)); [|exact H].
+    apply RSeq_push. eapply RSeq_rmview; [|exact H]. reflexivity.
+  - apply RSeq_despawn. exact H.
+  - apply RSeq_despawn. exact H.
+  - destruct (is_alive s w && negb (memN s (spawned w))); cbn [fst]; first [exact H | eapply RSeq_rmview; [|exact H]; reflexivity].
+  - cbn [fst]. destruct (negb (is_alive s w)); [eapply RSeq_rmview; [|exact H]; reflexivity|]. destruct (negb (memN s (spawned w))); first [exact H | eapply RSeq_rmview; [|exact H]; reflexivity].
+  - eapply RSeq_rmview; [|exact H].
+    assert (Hh : forall h w0, rmview (fst (let (w1, cs) := reg_triggers_cmds h b w0 in (handle_drop h w1, cs))) = rmview w0).
+    { intros h w0. pose proof (rmview_reg_triggers_cmds h b w0) as H1. destruct (reg_triggers_cmds h b w0) as [w1 cs]. cbn [fst] in *.
+      rewrite rmview_handle_drop. exact H1. }
+    destruct m; [apply Hh| |]; (unfold sig_new; rewrite Hh; reflexivity).
+  - eapply RSeq_rmview; [|exact H]. destruct t; cbn [fst]; try apply rmview_handle_drop; try reflexivity.
+    + apply rmview_comp_push.
+    + apply rmview_comp_push.
+    + rewrite rmview_comp_push. unfold track_removals. destruct (ahas c (removal_checkers w)); reflexivity.
+  - eapply RSeq_rmview; [|exact H]. destruct (is_alive e w); [destruct (alookup e (ereactors w)); reflexivity|apply rmview_handle_drop].
+  - eapply RSeq_rmview; [|exact H]. unfold track_removals. destruct (ahas c (removal_checkers w)); reflexivity.
+  - eapply RSeq_rmview; [|exact H]. destruct (is_alive e w); [|apply rmview_handle_drop].
+    match goal with |- context [if ?b then _ else _] => destruct b end; reflexivity.
+  - destruct tk as [ts s]. eapply RSeq_rmview; [apply rmview_revoke_all|exact H].
+  - apply RSeq_run_cleanup. exact H.
+  - destruct (alookup x (p_xr P)) as [[s shape]|]; [destruct (is_alive e w)|]; exact H.
+  - destruct (alookup x (p_xr P)) as [[s shape]|]; exact H.
+  - destruct (is_alive e w); first [exact H | eapply RSeq_rmview; [|exact H]; reflexivity].
+  - cbn [fst]. destruct (is_alive e w); [|exact H]. destruct (alookup e (ereactors w)); [|exact H].
+    match goal with |- context [if ?b then _ else _] => destruct b end; first [exact H | eapply RSeq_rmview; [|exact H]; reflexivity].
+  - eapply RSeq_rmview; [apply rmview_poll|exact H].
+Qed.
+End RSteps.
+
+From CobwebProofs Require Import Closed.
+Section RClosed.
+Variable P : program.
+Lemma RSeq_closed : closed P RSeq.
+Proof.
+  constructor.
+  - intros e w H. eapply RSeq_rmview; [|exact H]. reflexivity.
+  - intros c w H. apply RSeq_prim. exact H.
+  - intros o a w H. eapply RSeq_rmview; [apply rmview_act|exact H].
+  - intros c w t su cl w' H E. eapply RSeq_rmview; [|exact H].
+    destruct c; try discriminate E; cbn in E; try (inversion E; subst; reflexivity). destruct r; inversion E; subst; reflexivity.
+  - intros e r w H _. unfold gc_step. apply RSeq_despawn. eapply RSeq_rmview; [|exact H]. reflexivity.
+  - intros w H. eapply RSeq_rmview; [apply rmview_poll|exact H].
+  - intros su t w w' H E. eapply RSeq_rmview; [|exact H].
+    destruct su; cbn [run_setup] in E; repeat match type of E with match ?x with _ => _ end = _ => destruct x; try discriminate E end; inversion E; subst; reflexivity.
+  - intros cl w H. apply RSeq_run_cleanup. exact H.
+  - intros b w H. exact H.
+  - intros n w H. exact H.
+  - intros t b w H. exact H.
+  - intros t k w H _. unfold rn_dropped. eapply RSeq_rmview; [|exact H]. cbn [rmview removed removed_seq emit set]. exact (rmview_drop_callback t w).
+  - intros t k w H _. unfold rn_despawn_missing. eapply RSeq_rmview; [|apply (RSeq_despawn t (drop_callback t w)); eapply RSeq_rmview; [apply rmview_drop_callback|exact H]]. reflexivity.
+  - intros t w H. apply RSeq_despawn. exact H.
+  - intros t cb b w H _ _. exact H.
+  - intros t tk w H. unfold once_finish. destruct (alookup t (cbs w)); [|exact H]. eapply RSeq_rmview; [|exact H]. reflexivity.
+  - intros sd t r c w _ H. eapply RSeq_rmview; [|exact H]. unfold body_begin, state_bump.
+    assert (Hs : rmview (body_sample P sd t r c w) = rmview w).
+    { unfold body_sample. pose proof (rmview_sample_readers sd (xsys_of P t) w) as H1.
+      destruct (sample_readers sd (xsys_of P t) w) as [sm w1]. cbn [snd] in H1.
+      destruct (sm_l sm) as [[src [v|]]|]; try exact H1. destruct (xsys_of P t) as [[x ?]|]; exact H1. }
+    destruct (alookup t (cbs (body_sample P sd t r c w))); exact Hs.
+  - intros w H. apply RSeq_clear. exact H.
+Qed.
+Lemma RSeq_init : RSeq (install_static P init_world).
+Proof.
+  assert (Hgen : forall l w, rmview w = rmview init_world -> rmview (fold_left (fun w s => (reserve s w) <| storage ::= aset s true |> <| cbs ::= aset s (mkCb None 0 0 false true) |> <| spawned ::= cons s |>) l w) = rmview init_world).
+  { induction l as [|s l IH]; intros w H; cbn [fold_left]; [exact H|]. apply IH. etransitivity; [|exact H].
+    etransitivity; [|apply (rmview_reserve s w)]. reflexivity. }
+  eapply RSeq_rmview; [apply Hgen; reflexivity|]. intros c e seq g [].
+Qed.
+(* in every state any program can reach, a removal record is read at most once by each checker *)
+Theorem RSeq_reachable fuel w' : run P fuel = Ok w' -> RSeq w'.
+Proof. intros E. unfold run in E. eapply run_tops_closed; [apply RSeq_closed|apply RSeq_init|exact E]. Qed.
+Theorem RSeq_exec fuel i w w' : RSeq w -> exec P fuel i w = Ok w' -> RSeq w'.
+Proof. apply exec_closed. apply RSeq_closed. Qed.
+End RClosed.
